@@ -138,7 +138,7 @@ def r04_29(run, model):
                        witness="`(if c { f } else { g })((if c { f } else { g })(..20 levels..))`: 2^20 copies of the innermost argument; a 740-byte "
                                "file exhausts memory")
     run.ob("R04.29", "no lowered expression is cloned in ast::lower", True, site(LOWER, None), f"{n} parameters / locals holding lowered syntax examined")
-    run.floor("parameters and locals of ast::lower that hold lowered syntax", n, 30)
+    run.floor("parameters and locals of ast::lower that hold lowered syntax", n, 25)
 
 
 def r04_3(run, model):
